@@ -21,6 +21,25 @@ SW_DEFAULT = ("skip_validate_unique", "skip_validate_dimensions_exist", "skip_va
 SW = SW_DEFAULT
 
 
+ERR_NAMES = ("extend_mut", "invalid_mut", "invalid", "extend", "error")
+_FCUR = [None]
+
+
+def error_blocks(b, names=ERR_NAMES):
+    """blocks of b that record a validation error: a call of the error builder's API, or of a private helper of the crate (a method
+    of a private extension trait, say) that records one on every path"""
+    F = _FCUR[0]
+    out = []
+    for c in b.calls():
+        if c.name in names:
+            out.append(c.bb)
+        elif F is not None:
+            for hb in local_callee_bodies(F, c):
+                if hb.crate == CR and hb.kind != "Closure" and hb.def_ != b.def_ and always_reaches(F, hb, lambda x: x.name in ("extend_mut", "invalid_mut"), depth=2):
+                    out.append(c.bb)
+    return out
+
+
 def switches(F):
     """the validation switches by shape: the fields of the crate's all-bool struct (three or more flags) that a Format implementor keeps
     in one of its fields -> (flag names, {holder adt: name of the field holding the switch struct})"""
@@ -92,6 +111,7 @@ def run(ctx):
                           "skip_all_validations(%s): true->%s, keeps-true->%s, false-keeps-false->%s" % (f, on, off, keep))
 
     F = ctx.facts("dbg")
+    _FCUR[0] = F
     # ------------------------------------------------------------------ R08.2 member emission => uniqueness registration
     sites = member_emission_sites(F)
     ctx.floor("R08.2", "top-level member emission sites", len(sites), 3)
@@ -206,7 +226,7 @@ def run(ctx):
                 return (c.get("name") in ("push", "push_raw_str", "push_integer", "json_string", "push_str") and (
                     "PrefixedStringBuf" in c.get("def", "") + (c.get("self_ty") or "") + (c.get("resolved") or "") or "JsonString" in c.get("def", ""))) or \
                     c.get("name") in ("write_metric", "write_metric_value", "write")
-            errs_all = [j for j in b.live_blocks() if b.term(j)["k"] == "call" and (b.term(j).get("callee") or {}).get("name") in ("extend_mut", "invalid_mut", "error")]
+            errs_all = error_blocks(b, ("extend_mut", "invalid_mut", "error"))
             if vn and not sw:
                 # the gate may reject only together with a recorded error (so only rejected entries lose output): recorded by the gate
                 # itself before it returns the rejecting outcome, or by this caller on the rejecting side
@@ -241,7 +261,7 @@ def run(ctx):
                       "disabled, and without recording an error: enabling validation changes the bytes of an accepted entry" % (what, skipped))
             rets = [r for r in b.return_blocks() if r in only_enabled]
             if rets:
-                errs = [j for j in only_enabled if b.term(j)["k"] == "call" and (b.term(j).get("callee") or {}).get("name") in ("extend_mut", "invalid_mut", "invalid", "extend", "error")]
+                errs = [j for j in error_blocks(b) if j in only_enabled]
                 dom = dom or b.dominators()
                 ok = all(any(dominates(b, e, r, dom) for e in errs) for r in rets)
                 ctx.check(ok, "R08.4", key + "-early-exit", loc(b, rets[0]),
@@ -382,7 +402,7 @@ def run(ctx):
         if not stores:
             continue
         n8 += 1
-        errs = [c.bb for c in b.calls() if c.name in ("invalid_mut", "extend_mut", "invalid", "error") and "Validation" in (c.def_ or "") + (c.self_ty or "")]
+        errs = error_blocks(b, ("invalid_mut", "extend_mut", "invalid", "error"))
         # from where the configuration is known to be the dimensions one: the Some side of its downcast, else the entry of the body
         starts = []
         for c in b.calls():
@@ -468,7 +488,7 @@ def gate_switch_value(b, i, outcome):
 
 def false_only_after_error(sb):
     dom = sb.dominators()
-    errs = [j for j in sb.live_blocks() if sb.term(j)["k"] == "call" and (sb.term(j).get("callee") or {}).get("name") in ("extend_mut", "invalid_mut", "error")]
+    errs = error_blocks(sb, ("extend_mut", "invalid_mut", "error"))
     for j in sb.live_blocks():
         for s in sb.stmts(j):
             if s["k"] == "assign" and s["lhs"]["l"] == 0 and not s["lhs"].get("p") and s["rv"]["k"] == "use" and (op_const(s["rv"]["op"]) or {}).get("bool") is False:
